@@ -112,13 +112,13 @@ type Task struct {
 	curOp        int
 	tag          string // tag of the operation in flight (for pool probes)
 	inOp         bool
-	loadedNoLock bool // did an atomic load in this operation and has not taken a lock since
-	inRead       bool // is between reads of a caller-supplied reader
-	spawned      bool // started by the library (go statement), not by the plan
-	blockedAt    string // where (goroutine state and stack) it was found blocked outside the model
-	outside      bool // blocked on a primitive the simulator does not model (a channel): not schedulable until it comes back
+	loadedNoLock bool         // did an atomic load in this operation and has not taken a lock since
+	inRead       bool         // is between reads of a caller-supplied reader
+	spawned      bool         // started by the library (go statement), not by the plan
+	blockedAt    string       // where (goroutine state and stack) it was found blocked outside the model
+	outside      bool         // blocked on a primitive the simulator does not model (a channel): not schedulable until it comes back
 	goid         atomic.Int64 // written by the task's goroutine, read by the kernel: atomically, the hand-off is hidden from the race detector
-	condTicket   int  // sync.Cond.Wait: ticket on the notify list (0: none)
+	condTicket   int          // sync.Cond.Wait: ticket on the notify list (0: none)
 
 	// task-owned, read by the kernel only after join
 	panicMsg string
